@@ -71,6 +71,11 @@ def setup_tree(root):
         f.write(b"commit object")
 
 
+def dir_naming_patterns(root):
+    d = os.path.join(root, "base", "sub")
+    return [d + "/y", d + "/cache", "*.pyc", "*.link*", "sub/y"]
+
+
 def make_calls(root):
     """name -> zero-argument callable performing the library call (cwd = root/work
     unless the shape has no base path, then root/base)."""
@@ -102,6 +107,16 @@ def make_calls(root):
     calls["record/exclude_setting_special"] = with_patterns(lambda: rl.record_artifacts_as_dict(["."], base_path=base))
     calls["run/exclude_setting_special"] = with_patterns(lambda: rl.in_toto_run("st7", ["."], ["."], [sys.executable, "-c", "pass"],
                                                                                  base_path=base, signer=k.signer))
+    # the global exclude setting spells out the very directory that is recorded as one `dir:` artifact ("sub/y" for dir:sub)
+
+    def with_dir_patterns(fn):
+        def run():
+            st.ARTIFACT_EXCLUDE_PATTERNS = dir_naming_patterns(root)
+            return fn()
+        return run
+    calls["record/dir_exclude_setting_naming_dir"] = with_dir_patterns(lambda: rl.record_artifacts_as_dict(["dir:" + os.path.join(base, "sub")]))
+    calls["run/dir_exclude_setting_naming_dir"] = with_dir_patterns(lambda: rl.in_toto_run(
+        "st8", ["dir:" + os.path.join(base, "sub")], ["dir:" + os.path.join(base, "sub"), "x"], [sys.executable, "-c", "pass"], base_path=base, signer=k.signer))
     # (thorough tier) more combinations of entry point x base path x failure
     calls["record/ostree_ok"] = lambda: rl.record_artifacts_as_dict(["ostree:main"], base_path=os.path.join(root, "ostree"))
     calls["match_products/base_setting_collision"] = with_setting(lambda: rl.in_toto_match_products(
@@ -213,6 +228,8 @@ def run_once(name, root, fault_at=None):
             st.ARTIFACT_BASE_PATH = os.path.join(root, "base")
         if name.endswith("exclude_setting_special"):
             st.ARTIFACT_EXCLUDE_PATTERNS = ["*.link*", ".git", "*~", "#*#", "!scratch", "\\#keep"]
+        if name.endswith("dir_exclude_setting_naming_dir"):
+            st.ARTIFACT_EXCLUDE_PATTERNS = dir_naming_patterns(root)
         before = None
         with contextlib.redirect_stdout(io.StringIO()), contextlib.redirect_stderr(io.StringIO()):
             if name.startswith("verify/"):
@@ -404,7 +421,8 @@ SHAPES_QUICK = ["record/base_arg", "record/base_arg_two_paths", "record/no_base"
                 "run/failing_command", "run/no_such_command", "run/unwritable_metadata_dir", "record_start",
                 "record_start_stop", "record_stop/no_preliminary", "match_products", "record/exclude_setting_special",
                 "run/exclude_setting_special", "match_products/base_setting_collision", "match_products/base_setting",
-                "match_products/base_setting_no_such_dir"] + list(VERIFY_SHAPES)
+                "match_products/base_setting_no_such_dir", "record/dir_exclude_setting_naming_dir",
+                "run/dir_exclude_setting_naming_dir"] + list(VERIFY_SHAPES)
 
 
 SHAPES_THOROUGH = SHAPES_QUICK + ["record/ostree_ok",
